@@ -71,9 +71,57 @@ type cacheAcc struct {
 	Kind string // lookup, update, delete, range, len, load, assign
 	Key  ssa.Value
 	Val  ssa.Value
+	Site ssa.Instruction // the access is made by an unexported helper: the call of that helper in f (else nil)
 }
 
+// at: where the access happens as seen from the function it is attributed to.
+func (a cacheAcc) at() ssa.Instruction {
+	if a.Site != nil {
+		return a.Site
+	}
+	return a.In
+}
+
+// cacheAccesses: what f does with the cache map — itself, and through unexported helpers it calls statically that are
+// called from nowhere else (the miss branch of FromCache extracted into loadIntoCache): those are attributed to f at
+// the call site.
 func cacheAccesses(p *Prog, f *ssa.Function, field string) []cacheAcc {
+	out := cacheAccessesDirect(p, f, field)
+	for _, b := range f.Blocks {
+		for _, in := range b.Instrs {
+			c, ok := in.(*ssa.Call)
+			if !ok {
+				continue
+			}
+			g := c.Common().StaticCallee()
+			if g == nil || g == f || g.Blocks == nil || !p.InPkg(g) || g.Parent() != nil || (g.Object() != nil && g.Object().Exported()) || !p.staticOnly(g, nil) {
+				continue
+			}
+			if node := p.CG.Nodes[g]; node == nil || len(node.In) != 1 {
+				continue
+			}
+			subst := func(v ssa.Value) ssa.Value {
+				if pa, isP := v.(*ssa.Parameter); isP {
+					args := callArgs(c.Common())
+					if i := indexOfParam(g, pa); i < len(args) && g.Params[i] == pa {
+						return args[i]
+					}
+				}
+				return v
+			}
+			for _, acc := range cacheAccessesDirect(p, g, field) {
+				acc.Site = in
+				if acc.Key != nil {
+					acc.Key = subst(acc.Key)
+				}
+				out = append(out, acc)
+			}
+		}
+	}
+	return out
+}
+
+func cacheAccessesDirect(p *Prog, f *ssa.Function, field string) []cacheAcc {
 	var out []cacheAcc
 	isCache := func(v ssa.Value) bool { return loadsField(v, "TemplateSet", field) }
 	for _, b := range f.Blocks {
@@ -157,15 +205,22 @@ func checkC20(p *Prog, r *Report) {
 				r.Unk(key, pos, "the cache map is passed to a call; accesses behind it are not followed")
 				continue
 			}
-			if held(acc.In) {
+			if held(acc.at()) {
 				r.OK(key, pos, "cache %s under %s on every path", acc.Kind, ca.mutexField)
 			} else {
 				r.Bad(key, pos, "cache %s without holding %s on some path: concurrent FromCache/CleanCache calls race on the map", acc.Kind, ca.mutexField)
 			}
-			if acc.Kind == "update" {
+			// (a helper whose accesses are attributed to its only caller is not itself the place of lookup/fill)
+			attributed := false
+			if acc.Site == nil && f.Parent() == nil && (f.Object() == nil || !f.Object().Exported()) && p.staticOnly(f, nil) {
+				if node := p.CG.Nodes[f]; node != nil && len(node.In) == 1 {
+					attributed = true
+				}
+			}
+			if acc.Kind == "update" && !attributed {
 				fill = f
 			}
-			if acc.Kind == "lookup" {
+			if acc.Kind == "lookup" && !attributed {
 				lookupFn = f
 			}
 		}
@@ -184,10 +239,10 @@ func checkC20(p *Prog, r *Report) {
 		var lk, up ssa.Instruction
 		for _, x := range all {
 			if x.f == fill && x.acc.Kind == "lookup" {
-				lk = x.acc.In
+				lk = x.acc.at()
 			}
 			if x.f == fill && x.acc.Kind == "update" {
-				up = x.acc.In
+				up = x.acc.at()
 			}
 		}
 		bad := false
@@ -221,7 +276,7 @@ func checkC20(p *Prog, r *Report) {
 			pos := p.InstrPos(x.acc.In)
 			// !Debug dominates: in the function itself, or — the locked part being an unexported helper — at every
 			// call of that helper
-			dbg, via := u7DebugBypassed(p, x.acc.In, ca.debugField)
+			dbg, via := u7DebugBypassed(p, x.acc.at(), ca.debugField)
 			if dbg {
 				r.OK(p.FuncName(f)+":"+x.acc.Kind+":nodebug", pos, "reached only on the !%s edge%s", ca.debugField, via)
 			} else {
